@@ -43,6 +43,9 @@ func (v *VVar) Valid(src interface{}) error {
 	}
 
 	reflectValue := RemoveValuePtr(reflect.ValueOf(src))
+	if !reflectValue.IsValid() {
+		return errors.New("src is nil")
+	}
 	ty := reflectValue.Type()
 	supportType := false
 
